@@ -208,6 +208,9 @@ func (vm *VM) FindElement(name *IDName) (Element, error) {
 	}
 	// then look for local values
 	scope := vm.getCurrentScope()
+	if scope == nil {
+		return nil, zerr.NameNotDefined(nameStr)
+	}
 	elem := scope.GetValue(nameStr)
 	if elem == nil || scope.GetSymbolDepth(nameStr) == 0 {
 		// not a local value: look for the methods & classes defined in current module
@@ -232,6 +235,9 @@ func (vm *VM) FindElementWithModule(name *IDName) (Element, *Module, error) {
 	}
 	// then look for local values
 	scope := vm.getCurrentScope()
+	if scope == nil {
+		return nil, nil, zerr.NameNotDefined(nameStr)
+	}
 	elem, moduleID := scope.GetValueWithModuleID(nameStr)
 	if elem == nil || scope.GetSymbolDepth(nameStr) == 0 {
 		// look for the methods & classes defined in current module (see FindElement)
@@ -309,6 +315,10 @@ func (vm *VM) findCurrentModuleExportValue(name string) (Element, bool) {
 }
 
 func (vm *VM) getCurrentCallFrame() *CallFrame {
+	// no call frame yet (e.g. evaluating input-variable text before the main module starts)
+	if vm.csCount == 0 {
+		return nil
+	}
 	return vm.callStack[vm.csCount-1]
 }
 
